@@ -6,6 +6,7 @@ package sse
 // values come from the replay vector named by $VERIF_REPLAY.
 
 import (
+	"reflect"
 	"runtime"
 	"sync"
 	"sync/atomic"
@@ -162,9 +163,72 @@ func verifNondetTime(tag string) time.Time {
 }
 func verifTimeNanos(t time.Time) int64 { return t.UnixNano() }
 
-// verifReachable is decided on the executor's heap; natively it is not
-// observable and reports false (heap-walk assertions are executor-only).
-func verifReachable(root any, target any) bool { return false }
+// verifReachable: is the object target points to reachable from root? Under the
+// executor this is decided on its explicit heap; natively by walking the object graph
+// with reflection (pointers, interfaces, structs, arrays, maps and slices over their
+// whole capacity; closures are opaque).
+func verifReachable(root any, target any) bool {
+	t := reflect.ValueOf(target)
+	if t.Kind() != reflect.Pointer || t.IsNil() {
+		return false
+	}
+	tp := t.Pointer()
+	seen := map[uintptr]bool{}
+	var walk func(v reflect.Value) bool
+	walk = func(v reflect.Value) bool {
+		switch v.Kind() {
+		case reflect.Pointer:
+			if v.IsNil() {
+				return false
+			}
+			p := v.Pointer()
+			if p == tp {
+				return true
+			}
+			if seen[p] {
+				return false
+			}
+			seen[p] = true
+			return walk(v.Elem())
+		case reflect.Interface:
+			if v.IsNil() {
+				return false
+			}
+			return walk(v.Elem())
+		case reflect.Struct:
+			for i := 0; i < v.NumField(); i++ {
+				if walk(v.Field(i)) {
+					return true
+				}
+			}
+		case reflect.Slice:
+			if v.IsNil() {
+				return false
+			}
+			full := v.Slice(0, v.Cap())
+			for i := 0; i < full.Len(); i++ {
+				if walk(full.Index(i)) {
+					return true
+				}
+			}
+		case reflect.Array:
+			for i := 0; i < v.Len(); i++ {
+				if walk(v.Index(i)) {
+					return true
+				}
+			}
+		case reflect.Map:
+			it := v.MapRange()
+			for it.Next() {
+				if walk(it.Key()) || walk(it.Value()) {
+					return true
+				}
+			}
+		}
+		return false
+	}
+	return walk(reflect.ValueOf(root))
+}
 
 // verifJSONDoc returns a JSON document that decodes to the string s. Under
 // the executor encoding/json is a stub: json.Unmarshal of this document
